@@ -98,8 +98,15 @@ impl Backend for Bucket {
             Fault::SendError => return Reply::SendError,
             _ => {}
         }
+        // a delimiter rolls nested keys up into CommonPrefixes (S3 semantics)
+        let (list_kind, delimiter): (Option<(&String, &Option<usize>)>, Option<&String>) = match &req.kind {
+            ReqKind::List { prefix, max_keys } => (Some((prefix, max_keys)), None),
+            ReqKind::ListDelimited { prefix, max_keys, delimiter } => (Some((prefix, max_keys)), Some(delimiter)),
+            _ => (None, None),
+        };
         match &req.kind {
-            ReqKind::List { prefix, max_keys } => {
+            ReqKind::List { .. } | ReqKind::ListDelimited { .. } => {
+                let (prefix, max_keys) = list_kind.unwrap();
                 let max = max_keys.unwrap_or(1000).min(1000);
                 let mut objects = Vec::new();
                 let mut keys = Vec::new();
@@ -107,6 +114,12 @@ impl Backend for Bucket {
                 for (k, o) in map.range(prefix.clone()..) {
                     if !k.starts_with(prefix.as_str()) {
                         break;
+                    }
+                    if let Some(d) = delimiter {
+                        if k[prefix.len()..].contains(d.as_str()) {
+                            // rolled up into a common prefix, not listed
+                            continue;
+                        }
                     }
                     if objects.len() == max {
                         truncated = true;
@@ -363,7 +376,7 @@ impl Check for C17 {
                "stub": ["reqwest client + TLS + TCP + S3 (in-process endpoint behind the reqwest::get seam)"]})
     }
     fn required_probes(&self, _tier: Tier) -> Vec<&'static str> {
-        vec!["call.list_files", "call.download_file", "call.list_chunks", "call.download_chunk", "truncated_archive_listing", "key_with_xml_special", "key_with_non_ascii", "key_with_slash_in_name", "not_found_download", "fault.status", "fault.status_long_body", "fault.send_error", "fault.body_cut", "fault.xml_cut", "fault.bad_size", "fault.bad_last_modified", "fault.extra_elements", "fault.bad_last_modified_header", "listing_1000", "listing_1001", "short_truncated_page", "folder_marker_object", "max_keys_beyond_u32"]
+        vec!["call.list_files", "call.download_file", "call.list_chunks", "call.download_chunk", "truncated_archive_listing", "key_with_xml_special", "key_with_non_ascii", "key_with_slash_in_name", "not_found_download", "fault.status", "fault.status_long_body", "fault.send_error", "fault.body_cut", "fault.xml_cut", "fault.bad_size", "fault.bad_last_modified", "fault.extra_elements", "fault.bad_last_modified_header", "listing_1000", "listing_1001", "short_truncated_page", "folder_marker_object", "max_keys_beyond_u32", "nested_realtime_key", "key_longer_than_256_bytes"]
     }
     fn budget_s(&self, tier: Tier) -> u64 {
         match tier {
@@ -422,6 +435,18 @@ impl Check for C17 {
                 archive_map.insert(key, Obj { data: vec![7; 5], stamp_ms: s3sim::EPOCH_MS - 5000, fraction: true, listed_size: "5".into() });
                 let key = format!("{}/{}/{}", site, volume, draw_segment(tape, false, false));
                 realtime_map.insert(key, Obj { data: vec![0, 0, 0, 1, b'B', b'Z', 1], stamp_ms: s3sim::EPOCH_MS - 7000, fraction: false, listed_size: "7".into() });
+            }
+            // objects nested below the volume / site directory, and very long keys (S3 allows 1024 bytes)
+            if tape.draw(4) == 3 {
+                let sub = draw_segment(tape, true, false);
+                realtime_map.insert(format!("{}/{}/{}/{}", site, volume, sub, draw_segment(tape, true, false)), Obj { data: vec![0, 0, 0, 2, b'B', b'Z', 2, 2], stamp_ms: s3sim::EPOCH_MS - 11_000, fraction: true, listed_size: "8".into() });
+                ctx.count("nested_realtime_key");
+            }
+            if tape.draw(4) == 3 {
+                let long: String = (0..(260 + tape.draw(600) as usize)).map(|i| if i % 9 == 8 { 'é' } else { (b'a' + (i % 26) as u8) as char }).collect();
+                archive_map.insert(format!("{}/{}/{}{}_000001_{}", date_prefix, site, site, date.format("%Y%m%d"), long), Obj { data: vec![1, 2, 3], stamp_ms: s3sim::EPOCH_MS - 12_000, fraction: false, listed_size: "3".into() });
+                realtime_map.insert(format!("{}/{}/{}", site, volume, long), Obj { data: vec![0, 0, 0, 1, b'B', b'Z', 3], stamp_ms: s3sim::EPOCH_MS - 12_000, fraction: true, listed_size: "7".into() });
+                ctx.count("key_longer_than_256_bytes");
             }
             // zero-byte "folder marker" objects: keys ending in '/', their final path segment is empty
             if tape.draw(5) == 4 {
@@ -598,7 +623,7 @@ impl Check for C17 {
                 Call::ListFiles => {
                     ctx.count("call.list_files");
                     // max-keys is the caller's business (absent = S3's default of 1000)
-                    let req_max = match &req.kind {
+                    let req_max = match &req.kind.without_delimiter() {
                         ReqKind::List { prefix, max_keys } if *prefix == archive_prefix && req.host == s3sim::ARCHIVE_HOST => max_keys.unwrap_or(1000).min(1000),
                         _ => {
                             ctx.violate("request-shape", "list_files".into(), format!("list_files({}, {}) requested {} (parsed {:?}), expected a list-type=2 listing of prefix {:?} on the archive bucket", site, date, req.url, req.kind, archive_prefix));
@@ -682,8 +707,10 @@ impl Check for C17 {
                     if *max > u32::MAX as usize {
                         ctx.count("max_keys_beyond_u32");
                     }
+                    // extra listing parameters (e.g. a delimiter) are the caller's business: their
+                    // effect on the result is judged by the listing oracle below
                     let want_req = ReqKind::List { prefix: rt_prefix.clone(), max_keys: Some(*max) };
-                    if req.host != s3sim::REALTIME_HOST || req.kind != want_req {
+                    if req.host != s3sim::REALTIME_HOST || req.kind.without_delimiter() != want_req {
                         ctx.violate("request-shape", "list_chunks_in_volume".into(), format!("list_chunks_in_volume({}, {}, {}) requested {} (parsed {:?})", site, volume, max, req.url, req.kind));
                         return;
                     }
